@@ -122,14 +122,25 @@ void harness(void) {
 #endif
     VP_ASSERT("P:oomb.calls_bounded", vp_alloc_calls <= 3);
     VP_ASSERT("P:oomb.consistent_after_failure", bm_wf(vb) && bm_abs(vb) == S);
-    bool r2 = varintBitmapAdd(vb, x);
-    VP_ASSERT("P:oomb.usable_afterwards.add", r2 == !((S >> x) & 1));
-    S |= BIT(x);
-    VP_ASSERT("P:oomb.usable_afterwards.add_value", bm_wf(vb) && bm_abs(vb) == S);
-    bool r3 = varintBitmapRemove(vb, a);
-    VP_ASSERT("P:oomb.usable_afterwards.remove", r3 == (bool)((S >> a) & 1));
-    S &= ~BIT(a);
-    VP_ASSERT("P:oomb.usable_afterwards.remove_value", bm_wf(vb) && bm_abs(vb) == S);
+    /* usable afterwards: the object is again one of the well-formed pre-states from which C08's one-step queries prove
+     * every operation correct - provided the recorded capacities are backed by memory, which bm_wf cannot see.  Under CBMC
+     * the size of the heap object is available; natively (replay) ASan's redzones play that role. */
+#ifndef VP_NATIVE
+    if (vb->type == VARINT_BITMAP_ARRAY)
+        VP_ASSERT("P:oomb.capacity_backed_by_memory",
+                  __CPROVER_OBJECT_SIZE(vb->container.array.values) >= vb->container.array.capacity * sizeof(uint16_t));
+    else if (vb->type == VARINT_BITMAP_BITMAP)
+        VP_ASSERT("P:oomb.capacity_backed_by_memory", __CPROVER_OBJECT_SIZE(vb->container.bitmap.bits) >= BSZ);
+    else
+        VP_ASSERT("P:oomb.capacity_backed_by_memory",
+                  __CPROVER_OBJECT_SIZE(vb->container.runs.runs) >= vb->container.runs.capacity * 2 * sizeof(uint16_t));
+#else
+    /* native replay: touch the last slot the recorded capacity promises (ASan traps if it is not there) */
+    if (vb->type == VARINT_BITMAP_ARRAY && vb->container.array.capacity) {
+        volatile uint16_t *pp = &vb->container.array.values[vb->container.array.capacity - 1];
+        *pp = *pp;
+    }
+#endif
 #elif OP == 2
     bool r = varintBitmapRemove(vb, a);
     VP_ASSERT("P:remove.truthful", r == (bool)((S >> a) & 1));
